@@ -644,16 +644,41 @@ def _mkdoist(clock):
     return LDoist
 
 
+def _ctor_kw(pre, tock0):
+    """how the scheduler is configured: ("real",) in pre = built with the default real=False and switched on by assigning
+    doist.real = True at that position (otherwise real=True goes to the constructor); ("limit", v, how): how = "ctor" the
+    constructor gets limit=v, "attr" doist.limit = v is assigned at that position, "call" do()/ado() gets limit=v"""
+    kw = dict(tock=un(tock0))
+    if not any(op[0] == "real" for op in pre):
+        kw["real"] = True
+    for op in pre:
+        if op[0] == "limit" and op[2] == "ctor":
+            kw["limit"] = un(op[1])
+    return kw
+
+
+def _call_kw(pre):
+    for op in pre:
+        if op[0] == "limit" and op[2] == "call":
+            return dict(limit=un(op[1]))
+    return {}
+
+
 def _pre(clock, d, pre, doing_cls):
     """operations between construction and do(): ("peek",) read doist.timer.elapsed; ("tock", v) assign doist.tock (any
     number of times); ("sib", v) build ANOTHER real-time Doist with tock v (its timer reads the clock twice; tagged x);
-    ("sibtock", v) assign the sibling's tock"""
+    ("sibtock", v) assign the sibling's tock; ("real",) doist.real = True; ("limit", v, "attr") doist.limit = v"""
     sib = None
     for op in pre:
         if op[0] == "peek":
             d.timer.elapsed
         elif op[0] == "tock":
             d.tock = un(op[1])
+        elif op[0] == "real":
+            d.real = True
+        elif op[0] == "limit":
+            if op[2] == "attr":
+                d.limit = un(op[1])
         elif op[0] == "sib":
             clock.tag = "x"
             try:
@@ -667,6 +692,42 @@ def _pre(clock, d, pre, doing_cls):
             raise core.Infra(f"bad pre op {op!r}")
 
 
+def pre_for_model(pre):
+    """the model sees a sibling Doist being built as two clock readings by somebody else; how `real` and `limit` reach the
+    scheduler does not exist there (`limit` only bounds the number of cycles, see cycles_for_model)"""
+    out = []
+    for p in pre:
+        if p[0] == "sib":
+            out += [("xread",), ("xread",)]
+        elif p[0] in ("peek", "tock"):
+            out.append(p)
+    return tuple(out)
+
+
+def cycles_for_model(pre, tock0, n, tock_override=None):
+    """number of recur() calls of a run with a doer living n cycles: at least one; cut by `limit` (virtual tyme: the run
+    ends after the first cycle j with j * tock >= limit)"""
+    n = max(n, 1)
+    tock = tock0
+    limit = None
+    for p in pre:
+        if p[0] == "tock":
+            tock = p[1]
+        elif p[0] == "limit":
+            limit = abs(p[1]) if p[2] != "attr" else p[1]
+    if tock_override is not None:
+        tock = tock_override
+    if tock is None:
+        from hio.base import tyming
+        tock = sc(tyming.Tymist.Tock)
+    if limit is None:
+        return n
+    for j in range(1, n + 1):
+        if j * tock >= limit:
+            return j
+    return n
+
+
 def run_pace(case):
     _, base, incs, ovs, tock0, pre, n, xs = case
     clock = FakeClock(base, incs, ovs)
@@ -678,15 +739,13 @@ def run_pace(case):
     i_run = None
     with patched(clock):
         try:
-            d = LDoist(real=True, tock=un(tock0))
+            d = LDoist(**_ctor_kw(pre, tock0))
             holder[0] = d
             d._cyc = 0
             _pre(clock, d, pre, LDoist)
             tock_run = sc(d.tock)
             i_run = len(clock.log)
-            d.do(doers=[doer] if n > 0 else [])      # n == 0: no doers at all -- still one paced cycle
-            if d.done is not True:
-                end = "notdone"
+            d.do(doers=[doer] if n > 0 else [], **_call_kw(pre))      # n == 0: no doers at all -- still one paced cycle
         except Exhausted:
             end = "exhausted"
         except core.Infra:
@@ -725,14 +784,14 @@ def run_pace2(case):
     run2, end2, tock2run = (), None, None
     with patched(clock):
         try:
-            d = LDoist(real=True, tock=un(tock0))
+            d = LDoist(**_ctor_kw(pre, tock0))
             d._cyc = 0
             _pre(clock, d, pre, LDoist)
             tock1 = sc(d.tock)
             i_run = len(clock.log)
             clock.kbd = mode == "kbd"
             try:
-                d.do(doers=[_mkdoer(clock, n, xs, exc=(mode == "exc"), holder=[d])] if n > 0 else [])
+                d.do(doers=[_mkdoer(clock, n, xs, exc=(mode == "exc"), holder=[d])] if n > 0 else [], **_call_kw(pre))
             except KeyboardInterrupt:
                 pass
             except RuntimeError:
@@ -882,6 +941,11 @@ def gen_pace(rng):
         pre.insert(k, ("sib", rng.choice([rng.randint(1, 64) * grid, 1, 1024])))
         if rng.random() < 0.6:
             pre.insert(rng.randint(k + 1, len(pre)), ("sibtock", rng.randint(1, 64) * grid))
+    if rng.random() < 0.35:      # real-time mode switched on after construction (attribute) instead of real=True
+        pre.insert(rng.randint(0, len(pre)), ("real",))
+    if rng.random() < 0.2:       # a run limit, given to the constructor / assigned / given to do()
+        pre.insert(rng.randint(0, len(pre)), ("limit", rng.choice([0, rng.randint(0, 6) * (tock0 or 32), rng.randint(1, 300)]),
+                                              rng.choice(["ctor", "attr", "call"])))
     n = rng.choice([0, 1, 2, 3, 3, 4, 5, 6, 8, rng.randint(1, 14)])
     xs = tuple(rng.choice([0, 0, 0, 1, 2, 3]) if rng.random() < 0.5 else 0 for _ in range(n))
     if n >= 2 and rng.random() < 0.35:
@@ -1716,7 +1780,11 @@ def run_apace(case):
     old_gel, old_sleep = asyncio.get_event_loop, asyncio.sleep
     with patched(clock):
         try:
-            d = LDoist(real=True, tock=un(tock0))
+            if (n + len(incs)) % 2:
+                d = LDoist(real=True, tock=un(tock0))
+            else:                      # configured after construction
+                d = LDoist(tock=un(tock0))
+                d.real = True
             d._cyc = 0
             if tock1 is not None:
                 d.tock = un(tock1)
